@@ -24,7 +24,7 @@ def rec_env(extra_vars=None):
     def rec(*args):
         calls.append(list(args))
         return len(calls)
-    vars_ = {'v_a': 4, 'v_b': 9, 'v_s': 'txt'}
+    vars_ = {'v_a': 4, 'v_b': 9, 'v_s': 'txt', 'v_comma': ',', 'v_semi': ';', 'v_bslash': '\\'}
     vars_.update(extra_vars or {})
     env = Env(vars=vars_, cells={'B2': 6, 'C3': 'cell text', 'AA10': 2.5}, ranges={'B2:C3': [6, 7, 8]}, funcs={'REC': rec, 'ID': lambda x: x}, record=True)
     return env, calls
@@ -135,13 +135,14 @@ def check_string(case):
     elif ctx == 'eq':
         text, want = '%s=%s' % (L, L), True
     else:
-        text, want = 'REC(%s,%s)' % (L, L), 1
+        sep = SEPS[len(s) % 3]
+        text, want = 'REC(%s%s%s)' % (L, sep, L), 1
     r = env.parse(text)
     g = r['result']
     if r['error'] is not None or type(g) != type(want) or g != want:
         raise Violation('string literal %s (contents %r) in %s -> %r, expected %r' % (L, s, text, r['error'] or g, want), r['error'] or enc(g), enc(want))
     if ctx == 'two' and calls != [[s, s]]:
-        raise Violation('REC(%s,%s) received %r' % (L, L, calls), enc(calls), [[s, s]])
+        raise Violation('%s received %r' % (text, calls), enc(calls), [[s, s]])
 
 
 def string_key(case):
@@ -151,10 +152,10 @@ def string_key(case):
 # ---------------------------------------------------------------- trees for the metamorphic laws
 
 leafs = st.one_of(st.sampled_from(['1', '2', '3', '10', '007']).map(lambda s: ['num', s]), st.sampled_from(['0.5', '.25', '12.50']).map(lambda s: ['dec', s]),
-                  st.sampled_from(['v_a', 'v_b', 'v_s', 'TRUE', 'NULL', 'nosuch']).map(lambda n: ['var', n]),
+                  st.sampled_from(['v_a', 'v_b', 'v_s', 'TRUE', 'NULL', 'nosuch', 'v_comma', 'v_semi', 'v_bslash']).map(lambda n: ['var', n]),   # values equal to a separator character
                   st.sampled_from(['B2', '$B$2', 'c3', 'aa10', 'C$3', 'Z99']).map(lambda n: ['cell', n]),
                   st.sampled_from([['range', 'B2', 'C3'], ['range', 'c3', 'b2'], ['range', '$B$2', 'C3']]),
-                  st.sampled_from([['str', 'a b', '"'], ['str', ' x ', "'"], ['str', 'p,q;r', '"'], ['str', '', '"'], ['str', '\t\n', '"']]),
+                  st.sampled_from([['str', 'a b', '"'], ['str', ' x ', "'"], ['str', 'p,q;r', '"'], ['str', '', '"'], ['str', '\t\n', '"'], ['str', ',', '"'], ['str', ';', '"'], ['str', ';', "'"], ['str', ',', "'"]]),
                   st.sampled_from(['#N/A', '#DIV/0!']).map(lambda c: ['errlit', c]))
 OPS = gf.ARITH + gf.ARITH + gf.CMP + ['&']
 
